@@ -12,7 +12,8 @@ Bytes are `Nat` values (0..255 in every use; the hex formatter reduces mod 256 a
 -/
 namespace Uft.Json
 
-abbrev Byte := Nat
+/-- a byte value -/
+local notation "Byte" => Nat
 
 -- string literal -> list of byte values, expanded at elaboration time
 open Lean in
@@ -114,10 +115,12 @@ def escapeName (fixed : Bool) (name : List Byte) : NB :=
 
 def digit (n : Nat) : Byte := 48 + n % 10
 
-/-- `%d` / `%lu` of a non-negative value -/
-def dec (n : Nat) : List Byte :=
-  if _h : n < 10 then [digit n] else dec (n / 10) ++ [digit n]
-decreasing_by omega
+/-- `%d` / `%lu` of a non-negative value (fuel: a number below `f` has at most `f` digits) -/
+def decF : Nat → Nat → List Byte
+  | 0, _ => []
+  | f + 1, n => if n < 10 then [digit n] else decF f (n / 10) ++ [digit n]
+
+def dec (n : Nat) : List Byte := decF (n + 1) n
 
 /-- `%03d` of a value below 1000 -/
 def pad3 (n : Nat) : List Byte := [digit (n / 100), digit (n / 10), digit n]
